@@ -104,6 +104,8 @@ func Alphabet(contents []string, nspell int, views [][]string, escapes bool, rea
 			for _, b := range readBufs {
 				add(treefs.Op{Kind: "Reader", P: p.p, Buf: b})
 			}
+			add(treefs.Op{Kind: "Reader", P: p.p, Via: "copy"})
+			add(treefs.Op{Kind: "Reader", P: p.p, Buf: 1, Via: "head+copy"})
 			// degenerate streams: opened and closed without a write, one empty write, and the
 			// optional fast paths of a writer (ReadFrom through io.Copy, WriteString)
 			last := contents[len(contents)-1]
